@@ -283,7 +283,16 @@ TomlInlineD(v) ==
   CASE v.k = "seq" -> <<91>> \o FoldLeft(LAMBDA acc, i : acc \o (IF i > 1 THEN <<44, 32>> ELSE <<>>) \o TomlInlineD(v.e[i]), <<>>, [i \in DOMAIN v.e |-> i]) \o <<93>>
     [] v.k = "map" -> <<123, 32>> \o FoldLeft(LAMBDA acc, i : acc \o (IF i > 1 THEN <<44, 32>> ELSE <<>>) \o TomlEntryD(v.m[i]), <<>>, [i \in DOMAIN v.m |-> i]) \o <<32, 125>>
     [] OTHER -> TomlInline(v)
-TomlWrite(v, style) == IF style = 3 THEN FoldLeft(LAMBDA acc, kv : acc \o TomlEntryD(kv) \o <<LF>>, <<>>, v.m) ELSE TomlTable(v, <<>>, style)
+\* style 4: every leaf under its full dotted path - several dotted keys share a prefix (`y.z = 2`, `y.w = 3`), at the top
+\* level and inside the inline tables that are elements of arrays
+RECURSIVE Leaves(_,_), TomlInlineF(_)
+Leaves(path, v) == IF v.k = "map" /\ v.m # <<>> THEN FoldLeft(LAMBDA acc, kv : acc \o Leaves(Append(path, kv[1]), kv[2]), <<>>, v.m) ELSE << [p |-> path, v |-> v] >>
+TomlFlatEntries(v) == LET ls == Leaves(<<>>, v) IN [i \in DOMAIN ls |-> JoinDot(ls[i].p) \o <<32, 61, 32>> \o TomlInlineF(ls[i].v)]
+TomlInlineF(v) ==
+  CASE v.k = "seq" -> <<91>> \o FoldLeft(LAMBDA acc, i : acc \o (IF i > 1 THEN <<44, 32>> ELSE <<>>) \o TomlInlineF(v.e[i]), <<>>, [i \in DOMAIN v.e |-> i]) \o <<93>>
+    [] v.k = "map" -> <<123, 32>> \o FoldLeft(LAMBDA acc, i : acc \o (IF i > 1 THEN <<44, 32>> ELSE <<>>) \o TomlFlatEntries(v)[i], <<>>, [i \in DOMAIN TomlFlatEntries(v) |-> i]) \o <<32, 125>>
+    [] OTHER -> TomlInline(v)
+TomlWrite(v, style) == IF style = 4 THEN FoldLeft(LAMBDA acc, l : acc \o l \o <<LF>>, <<>>, TomlFlatEntries(v)) ELSE IF style = 3 THEN FoldLeft(LAMBDA acc, kv : acc \o TomlEntryD(kv) \o <<LF>>, <<>>, v.m) ELSE TomlTable(v, <<>>, style)
 \* the value a TOML document written in style 1 denotes: plain keys first, then tables, then arrays of tables (document order)
 Kind3(x) == IF IsTable(x) THEN 2 ELSE IF IsTableArray(x) THEN 3 ELSE 1
 Sel(v, k) == SelectSeq(v.m, LAMBDA kv : Kind3(kv[2]) = k)
